@@ -39,6 +39,10 @@ CLAIMED.update({
  'C20': dict(text='The kernels that touch untrusted bytes are executed on arbitrary byte strings (all 256 values) with the executor\'s memory model as oracle - every load/store/free is checked for bounds, lifetime and validity, allocations sized by untrusted counts are objects of symbolic size - plus "returns or throws a std::exception": parser text kernels (fast_clean, clean with a code keyword, slash/comment/trim/getline, RawRecord tokeniser, star and value tokens) and the unformatted Eclipse readers (all 24/48-byte header images incl. X231 and C0nn/stoi, array bodies with an arbitrary 64-bit element count).',
              note='inputs bounded (4 bytes of text, 12-20 byte array bodies, first record head <= 32 bytes); views are sub-views of a NUL-terminated buffer (loader contract); EclipseState/Schedule/SummaryConfig construction, formatted result files and allocation failure outside; uninitialised reads are not flagged', design='4/C20'),
 })
+CLAIMED.update({
+ 'C12': dict(text='Box (index lists for every sub-box and ACTNUM pattern, bounds validation) and the FieldProps.cpp operation kernels - apply(EQUALS/MULTIPLY/ADD/MINVALUE/MAXVALUE) in sequences of two operations, assign_deck with deck/default/empty entries - run on a 2x2x2 grid with symbolic activity, box corners, operands and value-status flags; every active cell is compared with a reference interpreter that only knows the global array, so the value in an active cell cannot depend on which other cells are inactive.',
+             note='doubles as reals; 2x2x2 grid, a few cells with symbolic activity/status; section drivers, keyword dispatch and default tables, COPY/OPERATE/region variants and integer arrays outside', design='4/C12'),
+})
 NA = {
 }
 ALL = ['C%02d' % i for i in range(1, 21)]
